@@ -15,6 +15,9 @@ import (
 	"log"
 	"math/big"
 	"net"
+	"net/http"
+	"net/http/httptest"
+	"net/url"
 	"os"
 	"path/filepath"
 	"strconv"
@@ -22,6 +25,7 @@ import (
 	"time"
 
 	"github.com/klauspost/cpuid"
+	"github.com/tmpim/casket/caskethttp/httpserver"
 	"github.com/tmpim/casket/caskettls"
 
 	"verifharness/hx"
@@ -446,4 +450,165 @@ func init() {
 			}
 		},
 		Eval: c06DefaultsEval})
+}
+
+// c06.snihost  sites  cfgs  hosthex  pathhex  sni
+//
+//	sites as in c01.route; cfgs = ';' list of clientAuth|disableSNI per site; sni = '-' (plaintext) or hex
+//	out = site TAB idx | forbidden | notfound TAB status
+//
+// The real code path: httpserver.NewServer with TLS-enabled sites and one marker middleware per
+// site, Server.ServeHTTP with r.TLS.ServerName = sni.
+func c06SniEval(f []string) (string, []string) {
+	if len(f) != 5 {
+		return "bad-case", nil
+	}
+	sites := c01ParseSites(f[0])
+	var auth []int
+	var disable []bool
+	if f[1] != "" {
+		for _, e := range strings.Split(f[1], ";") {
+			p := strings.Split(e, "|")
+			a, _ := strconv.Atoi(p[0])
+			auth = append(auth, a)
+			disable = append(disable, p[1] == "1")
+		}
+	}
+	if len(auth) != len(sites) {
+		return "bad-case", nil
+	}
+	host, path := hx.UnHS(f[2]), hx.UnHS(f[3])
+	var ran []int
+	group := make([]*httpserver.SiteConfig, len(sites))
+	for i, s := range sites {
+		sc := &httpserver.SiteConfig{
+			Addr: httpserver.Address{Original: s.key, Host: s.addrHost},
+			TLS: &caskettls.Config{Hostname: fmt.Sprintf("site%d.invalid", i), Enabled: f[4] != "-",
+				ClientAuth: tls.ClientAuthType(auth[i]), InsecureDisableSNIMatching: disable[i]},
+			FallbackSite: s.fallback,
+		}
+		idx := i
+		sc.AddMiddleware(func(next httpserver.Handler) httpserver.Handler {
+			return httpserver.HandlerFunc(func(w http.ResponseWriter, r *http.Request) (int, error) {
+				ran = append(ran, idx)
+				w.WriteHeader(200)
+				return 0, nil
+			})
+		})
+		group[i] = sc
+	}
+	srv, err := httpserver.NewServer("127.0.0.1:0", group)
+	if err != nil {
+		return "setup-error:" + err.Error(), nil
+	}
+	req := &http.Request{Method: "GET", Host: host, URL: &url.URL{Path: path}, Proto: "HTTP/1.1", ProtoMajor: 1, ProtoMinor: 1,
+		Header: http.Header{}, RemoteAddr: "192.0.2.1:4000", RequestURI: path}
+	tags := []string{fmt.Sprintf("sites=%d", len(sites))}
+	if f[4] != "-" {
+		req.TLS = &tls.ConnectionState{ServerName: hx.UnHS(f[4])}
+		tags = append(tags, "tls")
+	} else {
+		tags = append(tags, "trivial-plaintext")
+	}
+	rec := httptest.NewRecorder()
+	srv.ServeHTTP(rec, req)
+	switch {
+	case len(ran) == 1 && rec.Code == 200:
+		if auth[ran[0]] != 0 {
+			tags = append(tags, "served-by-clientauth-site")
+		} else {
+			tags = append(tags, "served-by-open-site")
+		}
+		return "site\t" + strconv.Itoa(ran[0]), tags
+	case len(ran) == 0 && rec.Code == 403:
+		return "forbidden", append(tags, "forbidden")
+	case len(ran) == 0:
+		return "notfound\t" + strconv.Itoa(rec.Code), append(tags, "notfound")
+	}
+	return fmt.Sprintf("unexpected:ran=%d,status=%d", len(ran), rec.Code), tags
+}
+
+func c06SniGen(g *hx.Gen) {
+	mk := func(key string) c01Site { return c01Site{key, false, c01AddrHost(key)} }
+	sets := [][]string{
+		{"a.com", "b.com"},
+		{"a.com", "*.a.com", ""},
+		{"secure.a.com", "*.a.com/x", "0.0.0.0"},
+		{"[::1]:8443", "a.com:8443"},
+	}
+	hosts := []string{"a.com", "A.COM", "a.com:8443", "b.com", "x.a.com", "secure.a.com", "zzz", "[::1]:8443", "[::1]", ""}
+	snis := []string{"-", "a.com", "A.com", "b.com", "x.a.com", "secure.a.com", "", "::1", "[::1]", "a.com:8443", "zzz"}
+	auths := []int{0, 1, 2, 3, 4}
+	for _, set := range sets {
+		sites := make([]c01Site, len(set))
+		for i, k := range set {
+			sites[i] = mk(k)
+		}
+		// every assignment of {open, client-auth, client-auth with the check disabled} to the sites
+		n := len(set)
+		total := 1
+		for i := 0; i < n; i++ {
+			total *= 3
+		}
+		for m := 0; m < total; m++ {
+			cfg := make([]string, n)
+			x := m
+			for i := 0; i < n; i++ {
+				switch x % 3 {
+				case 0:
+					cfg[i] = "0|0"
+				case 1:
+					cfg[i] = fmt.Sprintf("%d|0", auths[1+(m+i)%4])
+				default:
+					cfg[i] = "4|1"
+				}
+				x /= 3
+			}
+			for _, h := range hosts {
+				for _, s := range snis {
+					sn := "-"
+					if s != "-" {
+						sn = hx.HS(s)
+					}
+					for _, p := range []string{"/", "/x/y"} {
+						g.Case(c01EncSites(sites), strings.Join(cfg, ";"), hx.HS(h), hx.HS(p), sn)
+					}
+				}
+			}
+		}
+	}
+	N := 3000
+	if g.Thorough() {
+		N = 60000
+	}
+	names := []string{"a.com", "b.com", "x.a.com", "*.a.com", "", "c.org", "*.org"}
+	for it := 0; it < N; it++ {
+		n := 1 + g.Rng.Intn(5)
+		sites := make([]c01Site, n)
+		cfg := make([]string, n)
+		for i := range sites {
+			sites[i] = mk(hx.Pick(g.Rng, names) + hx.Pick(g.Rng, []string{"", ":8443", "/x"}))
+			cfg[i] = fmt.Sprintf("%d|%s", g.Rng.Intn(5)*g.Rng.Intn(2), b01(g.Rng.Chance(1, 4)))
+		}
+		h := hx.Pick(g.Rng, []string{"a.com", "b.com", "x.a.com", "y.org", "c.org", "q"})
+		sn := h
+		if g.Rng.Chance(1, 2) {
+			sn = hx.Pick(g.Rng, []string{"a.com", "b.com", "x.a.com", "y.org", "", "c.org"})
+		}
+		if g.Rng.Chance(1, 3) {
+			sn = strings.ToUpper(sn)
+		}
+		if g.Rng.Chance(1, 3) {
+			h += ":8443"
+		}
+		snf := hx.HS(sn)
+		if g.Rng.Chance(1, 10) {
+			snf = "-"
+		}
+		g.Case(c01EncSites(sites), strings.Join(cfg, ";"), hx.HS(h), hx.HS(hx.Pick(g.Rng, []string{"/", "/x", "/x/y"})), snf)
+	}
+}
+
+func init() {
+	hx.Register(&hx.Stream{ID: "C06", Name: "c06.snihost", Gen: c06SniGen, Eval: c06SniEval, Setup: func() error { log.SetOutput(io.Discard); return nil }})
 }
